@@ -131,15 +131,18 @@ class Tokenizer:
         """loop until we get INDENT-DEDENT or NL"""
 
         is_indented: bool = False
+        block = False  # the header line is over: the body is the indented block that follows
+        body_started = False  # a token other than comments / blank lines has been seen in the block
         indent = 0
         lines = {}
         start = end = self._tokens[-1].end
         for idx, tok in enumerate(self._tokengen):
             if (idx == 0) and tok.type == Token.NEWLINE:
+                block = True
                 continue
             elif tok.type == Token.INDENT:
-                if (not is_indented) and (idx == 1):
-                    is_indented = True
+                if (not is_indented) and block and (not body_started):
+                    is_indented = body_started = True
                     continue
                 indent += 1
             elif tok.type == Token.DEDENT:
@@ -156,9 +159,11 @@ class Tokenizer:
                     # empty new line added by the tokenizer
                     continue
 
+            if tok.type not in {Token.NL, Token.COMMENT}:
+                body_started = True
             # update captured lines
             if tok.start[0] not in lines:
-                lines[tok.start[0]] = tok.line if is_indented else tok.line[tok.start[1] :]
+                lines[tok.start[0]] = tok.line if block else tok.line[tok.start[1] :]
 
         string = "".join(lines.values())
         if is_indented:
